@@ -43,6 +43,8 @@ var (
 	ErrUint64OverflowsFloat64 = errors.New("uint64 overflows float64")
 	// ErrInt64UnderflowsUint64 is returned if when converting an int64 to a uint64 underflow uint64
 	ErrInt64UnderflowsUint64 = errors.New("int64 underflows uint64")
+	// ErrDivideByZero is returned when an amount is distributed over zero shares
+	ErrDivideByZero = errors.New("division by zero")
 	// ErrFloat64UnderflowsUint64 is returned if when converting an float6464 to a uint64 underflow uint64
 	ErrFloat64UnderflowsUint64 = errors.New("float64 underflows uint64")
 )
@@ -177,6 +179,10 @@ func MinusInt64(c Coin, a int64) (Coin, error) {
 func DistributeCoin(c Coin, a int64) (oCur, bal Coin, err error) {
 	d, err := Int64ToCoin(a)
 	if err != nil {
+		return
+	}
+	if d == 0 {
+		err = ErrDivideByZero
 		return
 	}
 	oCur = c / d
